@@ -24,8 +24,12 @@ pub fn keyword(i: u8, lang: &str) -> &'static str {
     }
 }
 pub const RULE_NAMES: [&str; 4] = ["alpha", "beta", "gamma", "delta"];
+/// names handed to delete_rule: the four rule names, and names nobody registered - among them the function names of
+/// built-in rules (deleting "convert_money" is deleting an unknown name: false, and nothing changes)
+pub const DELETE_NAMES: [&str; 12] = ["alpha", "beta", "gamma", "delta", "omega", "convert_money", "number_of", "small_date", "dynamic_type_convert", "as_duration", "combine_durations", "convert_timezone"];
 pub const UNIT_NAMES: [&str; 10] = ["zib", "zob", "blarg", "flurb", "snork", "glorp", "wumpus", "thud", "garply", "fred"];
-pub const FAMILY_NAMES: [&str; 3] = ["widgets", "gizmos", "doodads"];
+/// (family names are case-sensitive keys: two of them carry upper-case letters)
+pub const FAMILY_NAMES: [&str; 3] = ["widgets", "Gizmos", "dooDads"];
 
 #[derive(Clone, Debug, PartialEq, Serialize, Deserialize)]
 pub enum Field {
@@ -508,7 +512,7 @@ impl Prop for Registry {
                 }
                 Op::DeleteRule(l, name) => {
                     let lang = lang_of(*l);
-                    let nm = RULE_NAMES[*name as usize % 4];
+                    let nm = DELETE_NAMES[*name as usize % DELETE_NAMES.len()];
                     rendered.push_str(&format!("delete_rule({}, {}); ", lang, nm));
                     let got = match guarded(|| calc.delete_rule(lang.to_string(), nm.to_string())) {
                         Ok(b) => b,
@@ -522,6 +526,10 @@ impl Prop for Registry {
                     if got != pos.is_some() {
                         acc.fail(format!("delete_rule({}, {}) returned {} but {} rule of that name is registered", lang, nm, got, if pos.is_some() { "a" } else { "no" }));
                         break;
+                    }
+                    if pos.is_none() && (*name as usize % DELETE_NAMES.len()) >= 4 {
+                        builds += 1;
+                        differential(&calc, &m, &deleted, &mut acc, w, "after deleting a name nobody registered");
                     }
                     if let Some(p) = pos {
                         let (lg, spec) = m.rules.remove(p);
@@ -724,7 +732,7 @@ pub fn rule_strategy() -> impl Strategy<Value = RuleSpec> {
 pub fn op_strategy() -> impl Strategy<Value = Op> {
     prop_oneof![
         5 => (prop_oneof![6 => Just(0u8), 2 => Just(1u8), 1 => Just(2u8)], rule_strategy()).prop_map(|(l, r)| Op::AddRule(l, r)),
-        3 => (prop_oneof![6 => Just(0u8), 2 => Just(1u8), 1 => Just(2u8)], 0u8..4).prop_map(|(l, n)| Op::DeleteRule(l, n)),
+        3 => (prop_oneof![6 => Just(0u8), 2 => Just(1u8), 1 => Just(2u8)], prop_oneof![4 => 0u8..4, 1 => 4u8..12]).prop_map(|(l, n)| Op::DeleteRule(l, n)),
         2 => (0u8..3).prop_map(Op::AddType),
         4 => (0u8..3, 0u8..=5, 0u8..10, 2u8..=12, 2u8..=12, prop_oneof![2 => Just(0u8), 1 => Just(1u8), 1 => Just(2u8)]).prop_map(|(family, index, unit, down, up, names)| Op::AddItem(ItemSpec { family, index, unit, down, up, names })),
         6 => (any::<u8>(), 0u32..40, 0u32..40).prop_map(|(i, n, k)| Op::Probe(i, n, k)),
@@ -739,7 +747,7 @@ fn rule_block() -> impl Strategy<Value = Vec<Op>> {
     (
         prop::collection::vec((lang(), rule_strategy()), 1..=4),
         prop::collection::vec((any::<u8>(), 0u32..40, 0u32..40), 1..=4),
-        prop::collection::vec((lang(), 0u8..4), 1..=3),
+        prop::collection::vec((lang(), prop_oneof![5 => 0u8..4, 1 => 4u8..12]), 1..=3),
         prop::collection::vec((any::<u8>(), 0u32..40, 0u32..40), 2..=6),
         prop::option::of((lang(), rule_strategy())),
     )
@@ -993,7 +1001,7 @@ pub fn self_check() {
 
 pub fn run(ctx: &Ctx) {
     self_check();
-    ctx.rule("call histories of 1-14 operations on one calculator: add_rule(en|tr|unknown language, 1-3 patterns of fresh keywords - or no keyword at all for rules that always decline, or an operator word of the rule's own language (times/minus, kere/eksi) - and typed fields {NUMBER:n} {PERCENT:n} {MONEY:n} {TEXT:n} {NUMBER:k} or a quantity of a user family {DYNAMIC_TYPE:n[:family]} (the rule registered before the family exists or after its items), behaviour computed from the NAMED fields: decline always / decline when n is odd / Number(c+2n+3k) / Money / Percent / Duration), delete_rule (existing, never registered, already deleted, unknown language; names from a pool of four so that duplicates occur), add_dynamic_type, add_dynamic_type_item (fresh / duplicate index / unknown family, integer link factors; families whose lowest index is 0, 1 or 3; units with one name or two names in either order, lines written with either), probe evaluations of registered and deleted patterns, family conversions; oracle: return values against a model (add_rule false iff unknown language, delete_rule true iff a live rule of that name exists, removing the first; add_dynamic_type false iff the name exists; add_dynamic_type_item false iff the family is unknown or the index taken); effect: a line matched by exactly one live rule evaluates to what its behaviour computes, a declining rule or no rule leaves the line as on a plain calculator; conversions = product of the declared link factors; and after every deletion and at the end: the built-in sentences (arithmetic, money, percent, units, dates, durations incl. several parts and 'as', zones, bases) evaluate as on a plain calculator unless an operator-word rule is live, and every live pattern is probed for its effect once more at the end of the history; a panel of probe lines (every registered and deleted pattern, thirteen built-in sentences, every pair of family items, cross-family lines) evaluates identically on the long-lived calculator and on a fresh one on which only the surviving registrations were replayed, once in their order and once families first; non-trivial = a deletion followed by a probe of the deleted rule's pattern, two rules of equal name, or a rejected duplicate followed by a conversion");
+    ctx.rule("call histories of 1-14 operations on one calculator: add_rule(en|tr|unknown language, 1-3 patterns of fresh keywords - or no keyword at all for rules that always decline, or an operator word of the rule's own language (times/minus, kere/eksi) - and typed fields {NUMBER:n} {PERCENT:n} {MONEY:n} {TEXT:n} {NUMBER:k} or a quantity of a user family {DYNAMIC_TYPE:n[:family]} (the rule registered before the family exists or after its items), behaviour computed from the NAMED fields: decline always / decline when n is odd / Number(c+2n+3k) / Money / Percent / Duration), delete_rule (existing, never registered - also the function names of built-in rules such as convert_money -, already deleted, unknown language; names from a pool of four so that duplicates occur), add_dynamic_type, add_dynamic_type_item (fresh / duplicate index / unknown family, integer link factors; families whose lowest index is 0, 1 or 3; units with one name or two names in either order, lines written with either), probe evaluations of registered and deleted patterns, family conversions; oracle: return values against a model (add_rule false iff unknown language, delete_rule true iff a live rule of that name exists, removing the first; add_dynamic_type false iff the name exists; add_dynamic_type_item false iff the family is unknown or the index taken); effect: a line matched by exactly one live rule evaluates to what its behaviour computes, a declining rule or no rule leaves the line as on a plain calculator; conversions = product of the declared link factors; and after every deletion and at the end: the built-in sentences (arithmetic, money, percent, units, dates, durations incl. several parts and 'as', zones, bases) evaluate as on a plain calculator unless an operator-word rule is live, and every live pattern is probed for its effect once more at the end of the history; a panel of probe lines (every registered and deleted pattern, thirteen built-in sentences, every pair of family items, cross-family lines) evaluates identically on the long-lived calculator and on a fresh one on which only the surviving registrations were replayed, once in their order and once families first; non-trivial = a deletion followed by a probe of the deleted rule's pattern, two rules of equal name, or a rejected duplicate followed by a conversion");
     ctx.assume("patterns consist of a fresh keyword plus typed fields (>= 2 tokens, the result cannot match again); unit items have fresh names, contiguous indices are needed for a conversion to be asserted");
     ctx.run_table(&Registry, "regressions", regressions(), false);
     let max = match ctx.tier {
